@@ -672,9 +672,21 @@ func (x *Exec) randomQOpen(vs []entView, mk func(string) GenOp) GenOp {
 		o.Q++
 	}
 	o.Flt = x.randomFilter(vs, "")
-	if len(x.recent) > 0 && x.rng.Intn(2) == 0 {
+	live := []GenFlt{}
+	for _, r := range x.recent {
+		ok := true
+		for _, t := range r.Ft {
+			if t != 0 && !x.w.Alive(x.ent(t)) {
+				ok = false // its fixed target has died: using it again would name a removed entity
+			}
+		}
+		if ok {
+			live = append(live, r)
+		}
+	}
+	if len(live) > 0 && x.rng.Intn(2) == 0 {
 		// the same filter object as a recent batch or query, with other per-query targets
-		r := x.recent[x.rng.Intn(len(x.recent))]
+		r := live[x.rng.Intn(len(live))]
 		o.Flt = GenFlt{With: r.With, Without: r.Without, Excl: r.Excl, Ft: r.Ft, Qt: FlexMap[int]{}}
 		for _, c := range r.With {
 			if _, fixed := r.Ft[c]; isRelName(c) && !fixed && x.rng.Intn(4) != 0 {
@@ -688,7 +700,13 @@ func (x *Exec) randomQOpen(vs []entView, mk func(string) GenOp) GenOp {
 	// sometimes through a registered filter
 	for _, id := range x.sortedFilterIDs() {
 		rf := x.filters[id]
-		if x.rng.Intn(2) == 0 {
+		dead := false
+		for _, t := range rf.flt.Ft {
+			if t != 0 && !x.w.Alive(x.ent(t)) {
+				dead = true
+			}
+		}
+		if !dead && x.rng.Intn(2) == 0 {
 			o.F = id
 			o.Flt = rf.flt
 			o.Flt.Qt = FlexMap[int]{}
